@@ -87,7 +87,7 @@ class ProcessRun(Unit):
                                                                                                    'setLevel': Nop(), 'addHandler': Nop(), 'removeHandler': Nop()}))])
         ex.globals['logging.DEBUG'] = z3.IntVal(10)
         ex.globals['logging.handlers'] = Module('logging.handlers')
-        ex.globals['logging.handlers.QueueHandler'] = Fn(lambda e, s, a, k, n: [('ok', s, fresh('qh'))])
+        ex.globals['logging.handlers.QueueHandler'] = Fn(lambda e, s, a, k, n: (lambda q: [('ok', s.fork().assume(q != NONE), q)])(fresh('qh')))
         ex.globals['logging.captureWarnings'] = Nop()
         ex.globals['RemoteException'] = Fn(lambda e, s, a, k, n: [('ok', s, remote_exc(box(e, a[0])))], name='RemoteException')
         ex.globals['sys'] = Module('sys')
